@@ -217,6 +217,12 @@ def sDm16 (n : Node) : Res :=
   | some a => { n := n1, outs := [.tx PGN_DM16 (a &&& 0xFF) 7 data] }
   | none => { n := n1, err := some .TypeError }
 
+/-- the guard in front of the server's state machine: another requester, another pointer, or the busy flag -/
+def sRejects (s : Server) (p : Pdu) : Bool :=
+  (match s.sa with | some a => p.sa != a | none => false)
+  || (match s.address with | some ad => ad != Py.slice p.data 2 (s.length - 2) | none => false)
+  || s.busy
+
 /-- `DM14Server.parse_dm14` -/
 def sParseDm14 (n : Node) (seedIn : Nat) (p : Pdu) : Res :=
   if p.pgn != PGN_DM14 then { n := n }
@@ -224,9 +230,7 @@ def sParseDm14 (n : Node) (seedIn : Nat) (p : Pdu) : Res :=
   else
     let s := n.s
     let data := p.data
-    if (match s.sa with | some a => p.sa != a | none => false)
-        || (match s.address with | some ad => ad != Py.slice data 2 (s.length - 2) | none => false)
-        || s.busy then
+    if sRejects s p then
       let r := sDm15 s seedIn s.length (Py.idx data 1 >>> 4) ST_OPER_FAILED .sendError (Py.idx data 0) (some p.sa)
                 (if s.error != 0 then s.error else 2) 7
       { n := { n with s := { r.1 with busy := false } }, outs := r.2.1, err := r.2.2 }
